@@ -53,9 +53,13 @@
 namespace XERCES_CPP_NAMESPACE {
 
 // The chunk size to allocate from the system allocator.
-static XMLSize_t kInitialHeapAllocSize =  0x4000;
-static XMLSize_t kMaxHeapAllocSize     = 0x80000;
-static XMLSize_t kMaxSubAllocationSize =  0x0100;  // Any request for more bytes
+static const XMLSize_t kDefaultInitialHeapAllocSize =  0x4000;
+static const XMLSize_t kDefaultMaxHeapAllocSize     = 0x80000;
+static const XMLSize_t kDefaultMaxSubAllocationSize =  0x0100;
+
+static XMLSize_t kInitialHeapAllocSize = kDefaultInitialHeapAllocSize;
+static XMLSize_t kMaxHeapAllocSize     = kDefaultMaxHeapAllocSize;
+static XMLSize_t kMaxSubAllocationSize = kDefaultMaxSubAllocationSize;  // Any request for more bytes
                                                    // than this will be handled by
                                                    // allocating directly with system.
 
@@ -66,6 +70,15 @@ void XMLInitializer::initializeDOMHeap (XMLSize_t initialHeapAllocSize,
   kInitialHeapAllocSize = initialHeapAllocSize;
   kMaxHeapAllocSize = maxHeapAllocSize;
   kMaxSubAllocationSize = maxSubAllocationSize;
+}
+
+void XMLInitializer::terminateDOMHeap ()
+{
+  // Back to the built-in values, so that a later Initialize() without
+  // DOM heap arguments does not inherit those of an earlier one.
+  kInitialHeapAllocSize = kDefaultInitialHeapAllocSize;
+  kMaxHeapAllocSize = kDefaultMaxHeapAllocSize;
+  kMaxSubAllocationSize = kDefaultMaxSubAllocationSize;
 }
 
 //
